@@ -620,3 +620,49 @@ Proof.
       rewrite alookup_aset_same. apply Ho; exact Nm.
     + intros k' Nk. unfold db_get, db_set. cbn [kv]. apply alookup_aset_other; exact Nk.
 Qed.
+
+(* ================================================================== statements used by Properties/C12.v *)
+Lemma zrun_inv prog k z : db_get (zrun prog) k = Some (VZSet z) -> zset_inv z /\ zroot z <> Leaf.
+Proof. intros H. exact (zrun_ok prog k (VZSet z) H). Qed.
+
+Lemma zrun_prefix_inv prog n k z :
+  db_get (zrun (firstn n prog)) k = Some (VZSet z) -> zset_inv z /\ zroot z <> Leaf.
+Proof. apply zrun_inv. Qed.
+
+Lemma zrun_balanced prog k z :
+  db_get (zrun prog) k = Some (VZSet z) -> balanced (zroot z) /\ stored_ok (zroot z).
+Proof.
+  intros H. destruct (zrun_inv prog k z H) as [I _].
+  destruct I as (A & _). apply avl_stored_balanced in A. tauto.
+Qed.
+
+Lemma exec_zrange_sorted_exact d name k a b optl o z s e :
+  get_zset d k = ZFound z -> zset_inv z ->
+  atoi64 a = Some s -> atoi64 b = Some e ->
+  zrange_opts optl ropts0 = ROk o -> r_bylex o = false -> r_limit o = false ->
+  let L := members (zroot z) in
+  exec_zrange d (name :: k :: a :: b :: optl) =
+    (zrange_reply (r_ws o) (zwindow (if r_rev o then rev L else L) (zlength L) s e), d) /\
+  StronglySorted elt_lt L /\
+  NoDup (map fst L) /\
+  (forall m sc, In (m, sc) L <-> alookup m (zdict z) = Some sc).
+Proof.
+  intros G I Ha Hb Ho Hlex Hlim L. repeat split.
+  - exact (exec_zrange_index d name k a b optl o z s e G I Ha Hb Ho Hlex Hlim).
+  - exact (zset_inv_members_sorted z I).
+  - exact (zset_inv_members_NoDup z I).
+  - apply (zset_inv_dict_members z m sc I).
+  - apply (zset_inv_dict_members z m sc I).
+Qed.
+
+Lemma score_order_total a b c :
+  score_cmp a a = Eq /\ (score_cmp a b = Eq -> a = b) /\
+  score_cmp b a = CompOpp (score_cmp a b) /\
+  (score_cmp a b = Lt -> score_cmp b c = Lt -> score_cmp a c = Lt).
+Proof.
+  repeat split.
+  - apply score_cmp_refl.
+  - apply score_cmp_eq.
+  - apply score_cmp_antisym.
+  - apply score_cmp_lt_trans.
+Qed.
